@@ -1,22 +1,13 @@
 (** SchedCheck.v — correspondence for controlled schedules: the same schedule the controller drove
     the real processes through is fed to [run_schedule]; outcomes, final log and reader results are compared. *)
-From Ergo Require Import Base Text Events Replay Ready Compact Path Cmd Input View Storage Sched.
+From Ergo Require Import Base Text Events Replay Ready Compact Path Cmd Input View Storage Sched Concurrent.
 From ErgoRun Require Import Check.
 Local Open Scope string_scope.
 Local Open Scope list_scope.
 
-Definition txn_of (e : env) (q : request) : txn event :=
-  fun log => match normalize q with
-             | None => Sched.Abort
-             | Some c => match (run_txn e c log).1 with
-                         | Cmd.Abort => Sched.Abort
-                         | Cmd.Append es => Sched.Append es
-                         | Cmd.Replace es => Sched.Replace es
-                         end
-             end.
-
-Inductive proc := PWriter (e : env) (q : request) | PReader.
-Inductive pobs := ObsOk | ObsFail | ObsBusy | ObsDead | ObsRead (evs : list event) | ObsReadErr | ObsNone.
+Notation PWriter := Writer (only parsing).
+Notation PReader := Reader (only parsing).
+Inductive pobs := ObsOk | ObsFail | ObsBusy | ObsDead | ObsRead (evs : list event) | ObsReadErr | ObsNone | ObsSkip.
 Inductive tailobs := TailClean | TailTorn | TailValid.
 
 Record schedcase := SchedCase {
@@ -27,8 +18,7 @@ Record schedcase := SchedCase {
   sc_final : list event;           (* what readEvents returns on the final file *)
   sc_final_tail : tailobs }.
 
-Definition init_pst (p : proc) : pst event :=
-  match p with PWriter e q => PStart (txn_of e q) | PReader => RStart end.
+Definition init_pst (p : proc) : pst event := pst_of p.
 
 Definition obs_of_pst (s : pst event) : pobs :=
   match s with
@@ -52,7 +42,9 @@ Definition check_schedcase (c : schedcase) : list string :=
                            end
             end in
   let w := run_schedule (init_world f0 (init_pst <$> sc_procs c)) (sc_sched c) in
-  tag_if (negb (bool_decide (obs_of_pst <$> w_procs w = sc_outcomes c))) "SchedOutcome"
+  tag_if (negb (forallb (fun mo => match mo.2 with ObsSkip => true | o => bool_decide (mo.1 = o) end)
+                        (zip (obs_of_pst <$> w_procs w) (sc_outcomes c))
+                && Nat.eqb (length (w_procs w)) (length (sc_outcomes c)))) "SchedOutcome"
   ++ tag_if (negb (bool_decide (read_events (cur_file w) = sc_final c))) "SchedFinalLog"
   ++ tag_if (negb (bool_decide (tail_of (f_tail (cur_file w)) = sc_final_tail c))) "SchedTail".
 
